@@ -20,3 +20,29 @@ package wrkchain
 //@   loop 0: invariant forall j int :: {records[j]} 0 <= j && j < len(records) ==> records[j].Wrkchain.NumBlocks == len(records[j].Blocks) && records[j].Wrkchain.LowestHeight == (len(records[j].Blocks) > 0 ? records[j].Blocks[0].He : 0)
 //@   loop 0: invariant forall j int :: {records[j]} 0 <= j && j < len(records) ==> records[j].Wrkchain.WrkchainId == wrkChains[j].WrkchainId && records[j].Wrkchain.Owner == wrkChains[j].Owner && records[j].Wrkchain.Lastblock == wrkChains[j].Lastblock && records[j].Wrkchain.Moniker == wrkChains[j].Moniker
 //@   loop 0: invariant forall j int :: {records[j]} 0 <= j && j < len(records) && limHas(wrk_store, records[j].Wrkchain.WrkchainId) ==> records[j].InStateLimit == limGet(wrk_store, records[j].Wrkchain.WrkchainId)
+
+// Genesis import (C15): on a store without registrations, limits and records, every registration of the document is
+// stored byte-for-byte as given together with its limit, every listed record is stored under (id, height) of its
+// registration, records appear only under imported ids, and the next id is the document's.  Document preconditions
+// (stated, not checked by the code): registration ids pairwise distinct, heights pairwise distinct within a registration.
+//@ func InitGenesis(ctx, keeper, data) (updates)
+//@   props C15
+//@   requires forall i int :: {wrk_store[kWrkChain(i)]} {wrk_store[kLimit(i)]} !wcHas(wrk_store, i) && !limHas(wrk_store, i)
+//@   requires forall i int, h int :: {wrk_store[kBlock(i, h)]} !blkHas(wrk_store, i, h)
+//@   requires forall i int, j int :: {data.RegisteredWrkchains[i], data.RegisteredWrkchains[j]} 0 <= i && i < j && j < len(data.RegisteredWrkchains) ==> data.RegisteredWrkchains[i].Wrkchain.WrkchainId != data.RegisteredWrkchains[j].Wrkchain.WrkchainId
+//@   requires forall j int, a int, b int :: {data.RegisteredWrkchains[j].Blocks[a], data.RegisteredWrkchains[j].Blocks[b]} 0 <= j && j < len(data.RegisteredWrkchains) && 0 <= a && a < b && b < len(data.RegisteredWrkchains[j].Blocks) ==> data.RegisteredWrkchains[j].Blocks[a].He != data.RegisteredWrkchains[j].Blocks[b].He
+//@   let recs := data.RegisteredWrkchains
+//@   modifies wrk_store
+//@   ensures @records_imported forall j int, a int :: {recs[j].Blocks[a]} 0 <= j && j < len(recs) && 0 <= a && a < len(recs[j].Blocks) ==> wrk_store[kBlock(recs[j].Wrkchain.WrkchainId, recs[j].Blocks[a].He)] == blkBytes(mkBlock(recs[j].Blocks[a].He, recs[j].Blocks[a].Bh, recs[j].Blocks[a].Ph, recs[j].Blocks[a].H1, recs[j].Blocks[a].H2, recs[j].Blocks[a].H3, recs[j].Blocks[a].St))
+//@   ensures @registrations_imported forall j int :: {recs[j]} 0 <= j && j < len(recs) ==> wrk_store[kWrkChain(recs[j].Wrkchain.WrkchainId)] == wcBytes(recs[j].Wrkchain) && wrk_store[kLimit(recs[j].Wrkchain.WrkchainId)] == limBytes(recs[j].Wrkchain.WrkchainId, recs[j].InStateLimit)
+//@   ensures @nothing_else_registered forall i int :: {wrk_store[kWrkChain(i)]} {wrk_store[kLimit(i)]} wcHas(wrk_store, i) || limHas(wrk_store, i) ==> exists j int :: 0 <= j && j < len(recs) && recs[j].Wrkchain.WrkchainId == i
+//@   ensures @records_only_under_imported_ids forall i int, h int :: {wrk_store[kBlock(i, h)]} blkHas(wrk_store, i, h) ==> exists j int :: 0 <= j && j < len(recs) && recs[j].Wrkchain.WrkchainId == i
+//@   ensures @next_id wrkHighestIs(wrk_store, data.StartingWrkchainId)
+//@   loop 0: invariant 0 - 1 <= rangeindex && rangeindex < len(recs) && wrkHighestIs(wrk_store, data.StartingWrkchainId)
+//@   loop 0: invariant forall j int :: {recs[j]} 0 <= j && j <= rangeindex ==> wrk_store[kWrkChain(recs[j].Wrkchain.WrkchainId)] == wcBytes(recs[j].Wrkchain) && wrk_store[kLimit(recs[j].Wrkchain.WrkchainId)] == limBytes(recs[j].Wrkchain.WrkchainId, recs[j].InStateLimit)
+//@   loop 0: invariant forall i int :: {wrk_store[kWrkChain(i)]} {wrk_store[kLimit(i)]} wcHas(wrk_store, i) || limHas(wrk_store, i) ==> exists j int :: 0 <= j && j <= rangeindex && recs[j].Wrkchain.WrkchainId == i
+//@   loop 0: invariant forall i int, h int :: {wrk_store[kBlock(i, h)]} blkHas(wrk_store, i, h) ==> exists j int :: 0 <= j && j <= rangeindex && recs[j].Wrkchain.WrkchainId == i
+//@   loop 0: invariant forall k `wrkchain.Key` :: {wrk_store[k]} !isBlockKey(k) && !isWrkChainKey(k) && !isLimitKey(k) ==> wrk_store[k] == at_loop_entry(wrk_store)[k]
+//@   loop 0: invariant forall j int, a int :: {recs[j].Blocks[a]} 0 <= j && j <= rangeindex && 0 <= a && a < len(recs[j].Blocks) ==> wrk_store[kBlock(recs[j].Wrkchain.WrkchainId, recs[j].Blocks[a].He)] == blkBytes(mkBlock(recs[j].Blocks[a].He, recs[j].Blocks[a].Bh, recs[j].Blocks[a].Ph, recs[j].Blocks[a].H1, recs[j].Blocks[a].H2, recs[j].Blocks[a].H3, recs[j].Blocks[a].St))
+//@   loop 1: invariant rangeindex < len(record.Blocks) && forall a int :: {record.Blocks[a]} 0 <= a && a <= rangeindex ==> wrk_store[kBlock(wrkChain.WrkchainId, record.Blocks[a].He)] == blkBytes(mkBlock(record.Blocks[a].He, record.Blocks[a].Bh, record.Blocks[a].Ph, record.Blocks[a].H1, record.Blocks[a].H2, record.Blocks[a].H3, record.Blocks[a].St))
+//@   loop 1: invariant 0 - 1 <= rangeindex && forall k `wrkchain.Key` :: {wrk_store[k]} !(isBlockKey(k) && blockKeyId(k) == wrkChain.WrkchainId) ==> wrk_store[k] == at_loop_entry(wrk_store)[k]
